@@ -12,11 +12,11 @@ import common  # noqa: E402
 from vlib.core import SplitMix  # noqa: E402
 
 
-# The real blocking MessageQueue::get<T>() hands the kernel a buffer on the getter's stack.  With the defect
-# `mess-finish-recopies-payload` a later wait()/test() of the putter writes that dead stack slot again: the outcome
-# (nothing / garbage in a local / segfault) depends on the stack layout, so the generator writes blocking gets as
-# get_async(&heap_buffer)->wait() — the body of get<T>() — until the fix is in; then set this to True.
-REAL_GET = False
+# The real blocking MessageQueue::get<T>() hands the kernel a buffer on the getter's stack.  Before the fix of
+# `mess-finish-recopies-payload` a later wait()/test() of the putter wrote that dead stack slot again (outcome depending
+# on the stack layout), so the generator wrote blocking gets only as get_async(&heap_buffer)->wait() — the body of
+# get<T>().  Since the fix the real get<T>() (op `mget`) and get<T>(timeout) (op `mgetfor`) are called as well.
+REAL_GET = True
 
 
 def gen_program(rng, idx):
@@ -33,13 +33,13 @@ def gen_program(rng, idx):
         for _ in range(n):
             q = rng.below(nq)
             w = {"mput": 3, "mget": 3, "mputa": 3, "mgeta": 3, "mputd": 1, "mwait": 3, "mwaitfor": 1, "mtest": 2,
-                 "mcancel": 1, "sleep": 2}
+                 "mcancel": 1, "sleep": 2, "mgetfor": 1 if REAL_GET else 0}
             if style == 0:
                 w.update(mput=8, mget=8)
             elif style == 1:
                 w.update(mputa=8, mgeta=8, mwait=6)
             elif style == 2:
-                w.update(mwaitfor=8, mgeta=6, mputa=5, sleep=4)
+                w.update(mwaitfor=8, mgeta=6, mputa=5, sleep=4, mgetfor=5 if REAL_GET else 0)
             elif style == 3:
                 w.update(mcancel=6, mputd=5, mputa=5, mgeta=5)
             if not mine:
@@ -49,6 +49,10 @@ def gen_program(rng, idx):
             k = rng.choice(kinds)
             if k == "sleep":
                 ops.append("sleep %s" % dur.make(rng.below(3)))
+            elif k == "mgetfor":
+                # the real blocking get<T>(timeout): returns a payload or reports a timeout, no handle is left
+                hid[0] += 1
+                ops.append("mgetfor %d %d %s" % (q, hid[0], dur.make(rng.below(3))))
             elif k in ("mput", "mget") and not (rng.chance(1, 12) and (k == "mput" or REAL_GET)):
                 # blocking put()/get<T>() written as their bodies, put_async(p)->wait() / get_async(&buf)->wait(): every
                 # simcall then has its own call line (the real put()/get<T>() hide the wait behind one line; they are
@@ -94,26 +98,23 @@ def gen_program(rng, idx):
     return common.program_line(idx, actors)
 
 
+# Keys of defects that are FIXED (see known_findings.txt `fixed:` lines and props/C09/fix_series): they are not in the
+# `finding:` list any more, so a hit is reported as a violation — the key only names the regression.
 KEY_RECOPY = "mess-finish-recopies-payload"
-
-
-def uses_real_get(program):
-    return any(op.split()[:1] == ["mget"] for part in program.split("|")[1:] for op in part.split(";"))
+KEY_GET_TIMEOUT = "mq-get-timeout-stays-queued"
 
 
 def classify(res, verdict):
-    """stable classification of a monitor failure (matched against known_findings.txt)"""
+    """stable name of a monitor failure"""
     if "written again" in verdict:
         return KEY_RECOPY
-    if uses_real_get(res["program"]):
-        # the real get<T>() gives the kernel a stack buffer: the second write lands in a dead frame of the getter
-        # (segfault, or a garbled local of the harness)
-        return KEY_RECOPY
+    if "reported a timeout but is still queued" in verdict or "no get received its payload" in verdict:
+        return KEY_GET_TIMEOUT
     return None
 
 
 def run(ctx):
-    ctx.cov["rule"] = ("programs of 2..6 actors over 1..3 message queues (put/put_async/put_init+detach/get/get_async with and "
+    ctx.cov["rule"] = ("programs of 2..6 actors over 1..3 message queues (put/put_async/put_init+detach/get/get(timeout)/get_async with and "
                        "without buffer/wait/wait_for/test/cancel/sleep) drawn from splitmix64(VERIF_SEED) in 5 styles; "
                        "non-trivial = distinct program in which at least one payload was delivered")
     ctx.assumptions += [
@@ -151,13 +152,17 @@ def run(ctx):
         stats["delivered"] += delivered
         stats["deadlock" if log[-1].startswith("end => deadlock") else "ok"] += 1
         stats["timeouts"] += sum(1 for l in log if l.endswith("exc timeout"))
+        stats["get_timeout_calls"] = stats.get("get_timeout_calls", 0) + sum(
+            1 for l in log if l.startswith("c ") and " mgetfor " in l)
+        stats["get_timeout_expired"] = stats.get("get_timeout_expired", 0) + sum(
+            1 for l in log if l.startswith("r ") and " mgetfor " in l and l.endswith("exc timeout"))
         stats["late_deliveries"] += sum(1 for l in log if l.startswith("late ") and not l.endswith("none"))
         stats["cancels"] += sum(1 for l in log if l.startswith("c ") and " mcancel " in l)
         stats["tests_true"] += sum(1 for l in log if " mtest " in l and "=> true" in l)
         stats["tests_false"] += sum(1 for l in log if " mtest " in l and "=> false" in l)
         stats["detached"] += sum(1 for l in log if l.startswith("c ") and " mputd " in l)
         stats["real_blocking_calls"] = stats.get("real_blocking_calls", 0) + sum(
-            1 for l in log if l.startswith("c ") and (" mput " in l or " mget " in l))
+            1 for l in log if l.startswith("c ") and (" mput " in l or " mget " in l or " mgetfor " in l))
         stats["rewrites"] = stats.get("rewrites", 0) + sum(1 for l in log if l.startswith("rewrite ") and not l.endswith("none"))
         if delivered and r["program"].split("|", 1)[1] not in seen:
             seen.add(r["program"].split("|", 1)[1])
@@ -169,9 +174,6 @@ def run(ctx):
         case = {"program": r["program"], "log": log, "verdicts": [v for _, v in r["bad"]]}
         if mon:
             ctx.violation(mon[0][1], case, key=classify(r, mon[0][1]))
-        elif uses_real_get(r["program"]) and not REAL_GET:
-            ctx.violation("garbled run of a program calling the real get<T>(): " + r["bad"][0][1], case,
-                          key=classify(r, r["bad"][0][1]))
         else:
             ctx.broken.append({"kind": "correspondence", "program": r["program"], "first": r["bad"][0]})
     ctx.cov["samples"] = [r["program"] for r in res[:2] + res[len(corpus):len(corpus) + 3]]
